@@ -146,6 +146,9 @@ func (c *otApplyContext) applyGPOS(table tables.GPOSLookup) bool {
 		case tables.SinglePosData1:
 			c.applyGPOSValueRecord(inner.ValueFormat, inner.ValueRecord, glyphPos)
 		case tables.SinglePosData2:
+			if index >= len(inner.ValueRecords) { // a coverage index may exceed the coverage length
+				return false
+			}
 			c.applyGPOSValueRecord(inner.ValueFormat, inner.ValueRecords[index], glyphPos)
 		}
 		buffer.idx++
@@ -507,6 +510,9 @@ func (c *otApplyContext) getAnchor(anchor tables.Anchor, glyph GID) (x, y float3
 
 func (c *otApplyContext) applyGPOSMarks(marks tables.MarkArray, markIndex, glyphIndex int, anchors tables.AnchorMatrix, glyphPos int) bool {
 	buffer := c.buffer
+	if markIndex >= len(marks.MarkRecords) { // a coverage index may exceed the coverage length
+		return false
+	}
 	markClass := marks.MarkRecords[markIndex].MarkClass
 	markAnchor := marks.MarkAnchors[markIndex]
 
@@ -620,6 +626,9 @@ func (c *otApplyContext) applyGPOSMarkToLigature(data tables.MarkLigPos, markInd
 		return false
 	}
 
+	if ligIndex >= len(data.LigatureArray.LigatureAttachs) { // a coverage index may exceed the coverage length
+		return false
+	}
 	ligAttach := data.LigatureArray.LigatureAttachs[ligIndex].Anchors()
 
 	// Find component to attach to
